@@ -19,3 +19,4 @@ OBLIGATIONS = OBLIGATIONS + [K.WIG_TILING, K.BED_TILING]
 OBLIGATIONS = OBLIGATIONS + [K.MIR_COORD_ARITH, K.MIR_DIVISION, K.MIR_INPUT_UNWRAPS, K.MIR_RESULTS]
 OBLIGATIONS = OBLIGATIONS + [K.EMPTY_AND_TOOL_REFUSALS]
 OBLIGATIONS = OBLIGATIONS + [K.NODE_COUNTS]
+OBLIGATIONS = OBLIGATIONS + [K.TRY_SEND_CAP]
